@@ -1003,10 +1003,41 @@ def rule_g11(F):
     return r
 
 
+def rule_g12(F):
+    """By identity, not by spelling: a Roto type stands for a Rust type because of WHICH declaration its name resolves to (scope and
+    identifier together - `ResolvedName`), never because of how the identifier is spelled.  Scripts may declare `record Prefix {..}`
+    or `enum Option[T] {..}` of their own; those live in the package scope and have nothing to do with the built-ins.  So every
+    comparison the signature gate makes on a type name compares whole `ResolvedName`s / `Type`s; the bare `.ident` is never compared."""
+    r = RuleResult("C04.G12", "the signature gate compares type names as resolved names (scope + identifier), never the bare identifier", floor=3)
+    bodies = [b for b in F.bodies_in(["src/codegen/check.rs"]) if b.hir and "::tests::" not in b.path]
+    if not bodies:
+        r.missing("bodies of src/codegen/check.rs")
+        return r
+    for b in bodies:
+        cmps = [n for n in hir.nodes(b.hir["value"], "bin") if n.get("op") in ("==", "!=")]
+        cmps += [n for n in hir.nodes(b.hir["value"], "mcall") if n.get("m") in ("eq", "ne")]
+        for c in cmps:
+            sides = [c["a"], c["b"]] if c.get("k") == "bin" else [c["recv"]] + list(c["args"])
+            tys = " ".join(str(hir.strip(x).get("ty") or "") for x in sides)
+            bare = None
+            for x in sides:
+                for n in hir.walk(x):
+                    if n.get("k") == "field" and n.get("n") == "ident" and "ResolvedName" in str(hir.strip(n["e"]).get("ty") or ""):
+                        bare = n
+            if bare is None and not ("ResolvedName" in tys or "types::Type" in tys):
+                continue
+            r.inst("%s line-independent #%d" % (hir.last(b.path), len(r.instances)), {"fn": b.path, "operand_types": tys[:120], "bare_identifier": bare is not None})
+            if bare is not None:
+                r.bad(b.path, "type name compared by identifier only", relfile(b.file), c["line"],
+                      "%s compares the identifier of a resolved name (`.ident`) and ignores its scope: a type that a script declares under the name of a built-in "
+                      "(`record Prefix {..}`, `enum Option[T] {..}`) passes the gate as the built-in, and the function is handed out under a Rust signature it does not have" % hir.last(b.path))
+    return r
+
+
 def rules(ctx):
     F = ctx["F"]
     g5, lt = rule_g5(F)
-    return [rule_g1(F), rule_g2(F), rule_g3(F), rule_g4(F), g5, rule_g6(F), rule_g7(F, lt), rule_g9(F), rule_g10(F), rule_g11(F)]
+    return [rule_g1(F), rule_g2(F), rule_g3(F), rule_g4(F), g5, rule_g6(F), rule_g7(F, lt), rule_g9(F), rule_g10(F), rule_g11(F), rule_g12(F)]
 
 
 def thorough_rules(ctx):
